@@ -11,7 +11,7 @@ git -C /repo worktree add -q --detach "$R" HEAD || exit 3
 mkdir -p "$V"; rsync -a --exclude .cache --exclude replays --exclude .git /verif/ "$V"/
 mkdir -p "$V/.cache"
 if ! git -C "$R" apply "$patch"; then echo "mutrun: patch does not apply"; rc=3; else
-  (cd "$V" && GOCACHE=/verif/.cache/gocache VERIF_REPO="$R" VERIF_SEED=$seed ./check "$prop" --tier "$tier" > "$V/.out" 2>&1); rc=$?
+  (cd "$V" && GOCACHE=/tmp/mutrun-gocache VERIF_REPO="$R" VERIF_SEED=$seed ./check "$prop" --tier "$tier" > "$V/.out" 2>&1); rc=$?
   grep -E '^(check |VIOLATION|KNOWN-FINDING)' "$V/.out"
   if [ -n "${MUTRUN_KEEP_REPLAYS:-}" ]; then mkdir -p "$MUTRUN_KEEP_REPLAYS"; cp -r "$V/replays/." "$MUTRUN_KEEP_REPLAYS"/ 2>/dev/null; fi
 fi
